@@ -9,6 +9,18 @@ CHECKS = {
  "C01": ("reference-model monitor (exact rational interval oracle) over complete 8-bit enumeration + boundary-directed random inputs",
          "Every size/comparison verdict of the real library is compared with an independent big-rational interval oracle: all non-zero int8/uint8 values x all bounds in a window enumerated completely, plus boundary-directed values (bound-1, bound, bound+1, multi-byte strings, slices, floats adjacent to the bound) for every other kind, through Var, Struct, Map and Url. Held = no disagreement on the executions listed in the evidence.",
          "Trusts math/big and the harness's clause parser; NaN/Inf floats and bounds outside int range are out of scope; executions only, not a proof.", "§3 C01"),
+ "C10": ("Go race detector + linearizability checking of recorded histories (porcupine) + quiescent conservation monitor",
+         "One LRUCache is driven by 2-16 goroutines in a -race binary. (1) every race-detector report with a library frame is a violation; (2) thousands of small histories recorded at the client boundary with logical call/return stamps are checked for linearizability against the sequential LRU model with porcupine (no per-key partitioning, eviction couples keys); (3) large runs are checked at quiescence for Len<=capacity, Len==#hitting keys, Dump/Len agreement and exactly-once callback conservation. Evidence reports distinct interleavings and the op-pair overlap matrix actually observed.",
+         "Only executed interleavings are judged; the race detector sees only executed access pairs; porcupine v1.3.0 and the 30-line model are trusted; deadlock is decided by classifying the goroutine dump of a watchdog-killed child, never by a clock.", "§3 C10"),
+ "C14": ("generator-as-oracle round-trip monitor + algebraic no-loss law on arbitrary strings",
+         "Rule lists rendered with GenValidKV and RM.Set are read back through RM.Get, ValidNamesSplit and ParseValidNameKV and compared with the triples the generator rendered (count, order, key, value, labelled message); the splitter's no-loss law and fast-path/slow-path agreement are checked on millions of arbitrary strings.",
+         "Rule text is restricted as documented (commas only inside quotes, balanced quotes, no | in values, no leading =, non-empty messages).", "§3 C14"),
+ "C15": ("clause-level monitor of custom messages + extractor checked against the parsed clauses of real library errors",
+         "For every message-capable rule, failing and passing values, ten message shapes and five carriers the clause must show label+message verbatim; GetOnlyExplainErr is run on real library errors in every order pattern of Chinese-labelled, English-labelled, unknown-rule and rule-writing clauses (all patterns up to length 4, random up to 8, with trailing group clauses) and compared with the explanation parts of the parsed clauses.",
+         "Default wording is not pinned word for word; messages contain no clause separator or label text; the clause parser is trusted.", "§3 C15"),
+ "C20": ("differential monitor against encoding/json over run-time synthesised struct types",
+         "GetDumpStructStr is run on random values of random reflect.StructOf types (empty structs, unexported first/all fields, nested pointers, slices, arrays, string- and integer-keyed maps, nil at every level); the output must be valid JSON and decode to the same document as the standard encoding after the documented deviations, numbers compared exactly.",
+         "encoding/json is the trusted reference; strings without characters needing escapes; float32 restricted to multiples of 1/8; embedded fields, []byte and multi-level pointers excluded.", "§3 C20"),
  "C09": ("online reference-model monitor, bounded-exhaustive operation sequences + long random sequences",
          "The real LRUCache is stepped in lock-step with a 30-line reference LRU; return value, Len, removal-callback log and full recency order (Dump) are compared after every single operation. All sequences up to the length bound over a 10-letter alphabet on capacities 0..4 are enumerated completely; long random sequences cross the map-rebuild threshold thousands of times.",
          "Trusts the reference model's reading of the statement (Store on a live key replaces and touches, no callback on replacement); sequences longer than the bound are sampled, not enumerated.", "§3 C09"),
